@@ -177,7 +177,7 @@ uint8_t *c04_dup(const uint8_t *p, size_t n)
 // watchdog
 // ---------------------------------------------------------------------------------------------------------------
 static char wd_msg[600];
-static unsigned wd_wall = 300, wd_cpu = 60;
+static unsigned wd_wall = 300, wd_cpu = 20;
 
 static void on_alarm(int sig)
 {
